@@ -24,7 +24,8 @@ def run(run):
             items = lat.noisy_args(run, pc.olabels(A))
             r = 'dpo %d' % A
             with guard(run, 'context[%r]' % (items,), [pc.line, r]):
-                e, i = ctx[items]
+                arg = lat.as_iterable(run, items)
+                e, i = ctx[arg]
                 got = '%d %d' % (pc.omask(e), pc.pmask(i))
                 if small:
                     c = L[tuple(items)]
@@ -40,7 +41,8 @@ def run(run):
             r = 'dpp %d' % B
             with guard(run, 'context[%r] / lattice(%r)' % (items, items), [pc.line, r]):
                 if B:
-                    e, i = ctx[items]
+                    arg = lat.as_iterable(run, items)
+                    e, i = ctx[arg]
                     got = '%d %d' % (pc.omask(e), pc.pmask(i))
                 else:
                     got = None
